@@ -223,6 +223,18 @@ func (w *Worker) globalAddr(th *Thread, g *ssa.Global) *Value {
 	}
 	a := new(Value)
 	*a = zero(g.Type().(*types.Pointer).Elem())
+	if b, ok := w.eng.Embeds[g]; ok {
+		switch (*a).(type) {
+		case Str:
+			*a = Str{S: string(b)}
+		case []Value:
+			s := make([]Value, len(b))
+			for i, c := range b {
+				s[i] = BV(8, uint64(c))
+			}
+			*a = s
+		}
+	}
 	w.globals[g] = a
 	if g.Pkg != nil {
 		w.ensureInit(th, g.Pkg)
@@ -490,6 +502,7 @@ func (th *Thread) callFn(caller *frame, fn *ssa.Function, args []Value, env []Va
 	if in.intrinsic != nil {
 		if !in.harnessRT {
 			w.res.Intrinsics[in.name]++
+			th.forceAll(args)
 		}
 		return in.intrinsic(th, caller, fn, args)
 	}
@@ -987,7 +1000,7 @@ func (th *Thread) indexAddr(fr *frame, ins *ssa.IndexAddr) Value {
 }
 
 func (th *Thread) index(fr *frame, ins *ssa.Index) Value {
-	x := fr.get(ins.X)
+	x := th.force(fr.get(ins.X))
 	idx := fr.get(ins.Index).(*Term)
 	_, signed, _ := widthOf(ins.Index.Type())
 	switch x := x.(type) {
@@ -1022,6 +1035,9 @@ func (th *Thread) strIndex(s Str, idx *Term, signed bool) Value {
 
 func (th *Thread) lookup(fr *frame, ins *ssa.Lookup) Value {
 	x := fr.get(ins.X)
+	if _, ok := x.(UStr); ok {
+		x = th.force(x)
+	}
 	switch x := x.(type) {
 	case Str:
 		_, signed, _ := widthOf(ins.Index.Type())
@@ -1046,7 +1062,7 @@ func (th *Thread) lookup(fr *frame, ins *ssa.Lookup) Value {
 }
 
 func (th *Thread) slice(fr *frame, ins *ssa.Slice) Value {
-	x := fr.get(ins.X)
+	x := th.force(fr.get(ins.X))
 	var lo, hi, max int64 = 0, -1, -1
 	if ins.Low != nil {
 		lo = th.concInt(fr.get(ins.Low))
